@@ -33,7 +33,126 @@ structure Mon where
   rfold : List Name := []
   reported : List Name := []
 
-def machine : Machine (Option Conn) Mon where
+/-! ### end-to-end ops (`Connection::poll` granularity) -/
+def showList (l : List Name) : String :=
+  if l.isEmpty then "-" else ",".intercalate (l.map hex)
+
+def optList (tok pre : String) : Option (Option (List Name)) :=
+  if tok == pre then some none
+  else if tok.startsWith (pre ++ "=") then (parseNames (tok.drop (pre.length + 1)).toString).map some
+  else none
+
+def parseStep (tok : String) : Option Step :=
+  match optList tok "P" with
+  | some s => some (.pend s)
+  | none =>
+  match optList tok "E" with
+  | some s => some (.event s)
+  | none =>
+  match optList tok "RA" with
+  | some (some l) => some (.radd l)
+  | _ =>
+  match optList tok "RR" with
+  | some (some l) => some (.rrem l)
+  | _ => none
+
+def parseOnEv (tok : String) : Option (Option (List Name)) :=
+  if tok == "N" then some none else
+  match optList tok "S" with
+  | some (some l) => some (some l)
+  | _ => none
+
+def parsePOp : List String → Option POp
+  | ["steps", l] => ((l.splitOn ";").mapM parseStep).map .steps
+  | ["onev", l] => ((l.splitOn ";").mapM parseOnEv).map .onEv
+  | ["beh", l] => (parseNames l).map .beh
+  | ["poll"] => some .poll
+  | _ => none
+
+def showHEv (e : HEv) : String := (if e.1 then "L" else "R") ++ showEv e.2
+
+def showPC (res : String) (c : PC) : String :=
+  let ev := if c.log.isEmpty then "-" else "+".intercalate (c.log.map showHEv)
+  let em := if c.emitted.isEmpty then "-" else
+    "+".intercalate (c.emitted.map fun e => (if e.1 then "A:" else "R:") ++ showList e.2)
+  s!"{res} ev={ev} em={em} adv={showList c.adv} lk={showNames (keys c.lmap)} rk={showNames c.rset}"
+
+def isE2E (args : List String) : Bool :=
+  match args with
+  | "new" :: _ => true | "steps" :: _ => true | "onev" :: _ => true | "beh" :: _ => true | "poll" :: _ => true
+  | _ => false
+
+def modelE2E (st : Option PC) (args : List String) : Option PC × String :=
+  match args with
+  | ["new", l] =>
+    match parseNames l with
+    | some l => let c := pinit l; (some c, showPC "-" c)
+    | none => (st, "bad-op")
+  | _ =>
+    match st, parsePOp args with
+    | some c, some o =>
+      let r := pstep c o
+      let res := match r.2 with
+        | none => "-" | some .pending => "pending" | some .event => "event" | some .fuel => "fuel"
+      (some r.1, showPC res r.1)
+    | _, _ => (st, "bad-op")
+
+def stripPre (pre tok : String) : Option String :=
+  if tok.startsWith (pre ++ "=") then some (tok.drop (pre.length + 1)).toString else none
+
+def parseHEv (tok : String) : Option HEv :=
+  match tok.toList with
+  | 'L' :: r => (parseEv (String.ofList r)).map (true, ·)
+  | 'R' :: r => (parseEv (String.ofList r)).map (false, ·)
+  | _ => none
+
+def parseHEvs (tok : String) : Option (List HEv) :=
+  if tok == "-" then some [] else (tok.splitOn "+").mapM parseHEv
+
+def parseEmitted (tok : String) : Option (List (Bool × List Name)) :=
+  if tok == "-" then some [] else (tok.splitOn "+").mapM fun t =>
+    match t.splitOn ":" with
+    | ["A", n] => (parseNames n).map (true, ·)
+    | ["R", n] => (parseNames n).map (false, ·)
+    | _ => none
+
+/-- Spec on the implementation's outputs at `Connection::poll` granularity -/
+def monE2E (mon : Mon) (args outs : List String) : Mon × String :=
+  match outs with
+  | [res, ev, em, adv, lk, rk] =>
+    match (stripPre "ev" ev).bind parseHEvs, (stripPre "em" em).bind parseEmitted,
+          (stripPre "adv" adv).bind parseNames, (stripPre "lk" lk).bind parseNames, (stripPre "rk" rk).bind parseNames with
+    | some evs, some ems, some adv, some lk, some rk =>
+      let isNew := match args with | "new" :: _ => true | _ => false
+      let m0 : Mon := if isNew then {} else mon
+      -- every notification must be real (construction may send an empty initial set)
+      let (lf, rf, real) := evs.foldl (fun (acc : List Name × List Name × Bool) e =>
+        let (lf, rf, ok) := acc
+        if e.1 then (applyEv lf e.2, rf, ok && (isNew || realEvent lf e.2))
+        else (lf, applyEv rf e.2, ok && realEvent rf e.2)) (m0.lfold, m0.rfold, true)
+      let rep := ems.foldl (fun r e => reportFold r e.1 e.2) m0.reported
+      let m1 : Mon := { lfold := lf, rfold := rf, reported := rep }
+      let isPoll := match args with | ["poll"] => true | _ => false
+      let verdict :=
+        if !real then "FAIL:empty_or_noop_notification"
+        else if !specRemote rf rep then "FAIL:remote_fold"
+        else if !setEq rk rep then "FAIL:remote_set"
+        else if !setEq lf (lk.filter valid) then "FAIL:local_fold_vs_connection"
+        else if !isPoll then (if res == "-" then "ok" else "FAIL:unparsable")
+        else if res == "pending" then
+          (if !specLocal lf adv then "FAIL:local_fold_at_pending"
+           else if !setEq lk adv then "FAIL:local_keys_at_pending" else "ok")
+        else if res == "event" then "ok"
+        else "FAIL:unexpected_poll_result"
+      (m1, verdict)
+    | _, _, _, _, _ => (mon, "FAIL:unparsable")
+  | _ => (mon, "FAIL:unparsable")
+
+structure DSt where
+  conn : Option Conn := none
+  pc : Option PC := none
+
+def machineOld : Machine (Option Conn) Mon where
   init _ := none
   specInit _ := {}
   op st args :=
@@ -80,6 +199,19 @@ def machine : Machine (Option Conn) Mon where
         else (mon, "FAIL:unparsable")
       | _, _, _ => (mon, "FAIL:unparsable")
     | _, _ => (mon, "FAIL:unparsable")
+
+
+def machine : Machine DSt Mon where
+  init _ := {}
+  specInit _ := {}
+  op st args :=
+    if isE2E args then
+      let r := modelE2E st.pc args
+      ({ st with pc := r.1 }, r.2)
+    else
+      let r := machineOld.op st.conn args
+      ({ st with conn := r.1 }, r.2)
+  spec mon args outs := if isE2E args then monE2E mon args outs else machineOld.spec mon args outs
 
 end Driver.C11
 
